@@ -1,3 +1,4 @@
+import Std.Data.String.ToNat
 import XsModel.Command
 import XsProofs.Registry
 namespace Xs.Serve
@@ -200,5 +201,26 @@ theorem startup_runs_no_call (t : List CEntry) (l : List SFrame) :
         · simp at hne
         · simp at hne
     · exact ih _ p hp
+
+/-! ### concurrent calls -/
+
+/-- C19 (concurrent calls do not mix their results): however the frames of two calls of
+    different ids interleave in the stream, selecting by `frame_id` gives back each call's frames,
+    complete and in its own order -/
+theorem concurrent_calls_separate (d1 d2 : CDef) (c1 c2 : SFrame) (r1 r2 : CallRes) (m : List SFrame)
+    (hne : c1.id ≠ c2.id) (h : Xs.Interleave (callOutputs d1 c1 r1) (callOutputs d2 c2 r2) m) :
+    m.filter (fun o => metaGet o.mdata "frame_id" = some (idText c1.id)) = callOutputs d1 c1 r1 := by
+  apply Xs.interleave_filter _ h
+  · intro o ho
+    have := (callOutputs_stamped d1 c1 r1 o ho).2
+    simp [this]
+  · intro o ho
+    have := (callOutputs_stamped d2 c2 r2 o ho).2
+    simp only [this, Option.some.injEq, decide_eq_false_iff_not]
+    intro e
+    apply hne
+    unfold idText at e
+    have : Nat.repr c2.id = Nat.repr c1.id := (String.append_right_inj "id:").mp e
+    exact (Nat.repr_inj.mp this).symm
 
 end Xs.Serve
